@@ -17,8 +17,14 @@ VARIABLE p
 
 I2 == TInt(2)
 \* callee table: [name, args <<[n, d]>>, body, rd]
+\* callees 8..10 are callees 1..3 whose first formal is NAMED after the callee (g -> g_in, gx): a renaming
+\* scheme that looks at name prefixes must not confuse them with already-renamed symbols
+FX(k, nm) == IF k = 8 THEN nm \o "_in" ELSE nm \o "x"
 Callee(k, nm) ==
   CASE k = 1 -> FunDef(nm, <<Arg("x", TBool), Arg("y", TBool)>>, <<Ret(BoolOpN("And", <<Name("x"), Un("Not", Name("y"))>>))>>, TBool)
+    [] k = 8 -> FunDef(nm, <<Arg(FX(8, nm), TBool), Arg("y", TBool)>>, <<Ret(BoolOpN("And", <<Name(FX(8, nm)), Un("Not", Name("y"))>>))>>, TBool)
+    [] k = 9 -> FunDef(nm, <<Arg(FX(9, nm), I2)>>, <<Ret(Bin("Add", Name(FX(9, nm)), CI(1)))>>, I2)
+    [] k = 10 -> FunDef(nm, <<Arg("x", I2), Arg(FX(10, nm), I2)>>, <<Ret(Cmp("Gt", Name("x"), Name(FX(10, nm))))>>, TBool)
     [] k = 2 -> FunDef(nm, <<Arg("x", I2)>>, <<Ret(Bin("Add", Name("x"), CI(1)))>>, I2)
     [] k = 3 -> FunDef(nm, <<Arg("x", I2), Arg("y", I2)>>, <<Ret(Cmp("Gt", Name("x"), Name("y")))>>, TBool)
     [] k = 4 -> FunDef(nm, <<Arg("q", TTup(<<I2, TBool>>))>>, <<Ret(IfE(Sub(Name("q"), CI(1)), Sub(Name("q"), CI(0)), CI(3)))>>, I2)
@@ -45,8 +51,8 @@ Pair(callee, sig, body, rd, route) ==
 PB(nm, fam) ==
   LET BA == BoolActuals(nm[2], nm[3])  IA == IntActuals(nm[2], nm[3])  g == nm[1] IN
   CASE fam = "bool2" ->
-         {Pair(Callee(1, g), BoolSig(nm[2], nm[3]), <<Ret(CallN(g, <<x, y>>))>>, TBool, r) :
-            x \in BA, y \in BA, r \in {"defs", "inline"}}
+         {Pair(Callee(k, g), BoolSig(nm[2], nm[3]), <<Ret(CallN(g, <<x, y>>))>>, TBool, r) :
+            k \in {1, 8}, x \in BA, y \in BA, r \in {"defs", "inline"}}
     [] fam = "bool2x2" ->   \* two calls in one expression
          {Pair(Callee(1, g), BoolSig(nm[2], nm[3]),
                <<Ret(BoolOpN("Or", <<CallN(g, <<x, y>>), CallN(g, <<y, Name(nm[2])>>)>>))>>, TBool, "defs") : x \in BA, y \in BA}
@@ -54,14 +60,14 @@ PB(nm, fam) ==
          {Pair(Callee(7, g), BoolSig(nm[2], nm[3]), <<Ret(CallN(g, <<x, y, z>>))>>, TBool, "defs") :
             x \in BA, y \in BA, z \in {Name(nm[2]), Sub(Name("t"), CI(1))}}
     [] fam = "int1" ->      \* incl. nested call g(g(v)) and call inside arithmetic
-         {Pair(Callee(2, g), IntSig(nm[2], nm[3]), <<Ret(e)>>, I2, r) :
-            r \in {"defs", "inline"},
+         {Pair(Callee(k, g), IntSig(nm[2], nm[3]), <<Ret(e)>>, I2, r) :
+            k \in {2, 9}, r \in {"defs", "inline"},
             e \in {CallN(g, <<x>>) : x \in IA}
                  \cup {CallN(g, <<CallN(g, <<x>>)>>) : x \in IA}
                  \cup {Bin("Add", CallN(g, <<x>>), CallN(g, <<Name(nm[3])>>)) : x \in IA}}
     [] fam = "int2" ->
-         {Pair(Callee(k, g), IntSig(nm[2], nm[3]), <<Ret(CallN(g, <<x, y>>))>>, IF k = 3 THEN TBool ELSE I2, r) :
-            k \in {3, 6}, x \in IA, y \in IA, r \in {"defs", "inline"}}
+         {Pair(Callee(k, g), IntSig(nm[2], nm[3]), <<Ret(CallN(g, <<x, y>>))>>, IF k \in {3, 10} THEN TBool ELSE I2, r) :
+            k \in {3, 6, 10}, x \in IA, y \in IA, r \in {"defs", "inline"}}
     [] fam = "tuple" ->     \* tuple-typed formal: whole tuple variable / tuple display of scalars
          {Pair(Callee(4, g), IntSig(nm[2], nm[3]), <<Ret(CallN(g, <<x>>))>>, I2, r) :
             r \in {"defs", "inline"},
